@@ -352,6 +352,28 @@ func loadFindings() []Finding {
 	return fs
 }
 
+// wildMatch matches s against pattern, where '*' matches any (possibly empty)
+// run of characters.  Known findings use it to name one root cause that the
+// oracle reports under several closely related signatures.
+func wildMatch(pattern, s string) bool {
+	parts := strings.Split(pattern, "*")
+	if len(parts) == 1 {
+		return pattern == s
+	}
+	if !strings.HasPrefix(s, parts[0]) {
+		return false
+	}
+	s = s[len(parts[0]):]
+	for i := 1; i < len(parts)-1; i++ {
+		j := strings.Index(s, parts[i])
+		if j < 0 {
+			return false
+		}
+		s = s[j+len(parts[i]):]
+	}
+	return strings.HasSuffix(s, parts[len(parts)-1])
+}
+
 // Finish writes evidence and replay artefacts, prints the verdict lines and
 // exits: 0 = held (or only known findings), 1 = violation, 3 = harness fault.
 func Finish(r *Result, start time.Time) {
@@ -361,7 +383,7 @@ func Finish(r *Result, start time.Time) {
 	findings := loadFindings()
 	known := func(v Violation) *Finding {
 		for i, k := range findings {
-			if k.Status == "known" && k.Property == r.Property && k.Signature == v.Signature {
+			if k.Status == "known" && k.Property == r.Property && wildMatch(k.Signature, v.Signature) {
 				return &findings[i]
 			}
 		}
